@@ -18,6 +18,11 @@
 //	                                       entries of the regenerated access table: a public method the matrix never
 //	                                       exercises is a broken obligation
 //	new types <T1,T2,...>                  the types the matrix covers (same comparison, per type)
+//	new fresh <Type> <Form> <rounds>       first uses: per round a NEW, unprimed instance built in construction form
+//	                                       <Form> (each constructor, the literal / zero value where supported, each
+//	                                       configuration with its own code path); 2-4 workers make their first 1-3
+//	                                       calls of one method pair on it, the pairs of the matrix in turn.  The
+//	                                       pair/stress/seq/directed cases also go through the forms, one per round
 //	new directed <Type> <M1> <M2> <iters>  (directed search, emitted by checklib/props/C15.py when the
 //	                                       access-table obligation breaks) all variants of one method
 //	                                       against sequences "other mutators as preparation, then the other"
@@ -51,6 +56,7 @@ import (
 	"time"
 
 	"github.com/ecodeclub/ekit/bean/copier"
+	"github.com/ecodeclub/ekit/bean/option"
 	"github.com/ecodeclub/ekit/list"
 	"github.com/ecodeclub/ekit/pool"
 	"github.com/ecodeclub/ekit/queue"
@@ -114,6 +120,19 @@ type inst struct {
 	ops   map[string]op
 	close func()
 	trim  func() // keeps the instance small during long writer sequences (called by the writer itself)
+	// prime: the calls the constructing goroutine makes on the instance before it is shared (prefill, Start, …).
+	// The pair/stress/seq/directed cases prime; the `fresh` cases do not: there the FIRST uses of the
+	// instance come from the concurrent workers (lazy initialisation is part of the thread-safe surface)
+	prime func()
+}
+
+// form: one supported way of building an instance of a thread-safe type - each constructor, the struct
+// literal / zero value where the type documents (or its own tests use) it, and the configurations that
+// select different code paths (bounded/unbounded, the kind of Locker, the wrapped implementation).
+// mk returns the instance as built, NOT primed.
+type form struct {
+	name string
+	mk   func(m1, m2 string) *inst
 }
 
 type typ struct {
@@ -121,7 +140,38 @@ type typ struct {
 	methods []string
 	// light: iterations are scaled down (blocking calls with deadlines, goroutine-starting calls)
 	scale int
-	mk    func(m1, m2 string) *inst
+	forms []form
+}
+
+// build returns an instance in construction form k (mod the number of forms), primed or not
+func (t *typ) build(k int, m1, m2 string, primed bool) *inst {
+	f := t.forms[((k%len(t.forms))+len(t.forms))%len(t.forms)]
+	in := f.mk(m1, m2)
+	if primed && in.prime != nil {
+		in.prime()
+	}
+	return in
+}
+
+// formOffset spreads the construction forms over the rounds of a case: round r of a case on (m1, m2) uses
+// form r+formOffset, so every form is used by some round of every pair when there are at most `rounds` forms
+func formOffset(m1, m2 string) int { return len(m1) + len(m2) }
+
+func (t *typ) formNames() []string {
+	out := make([]string, len(t.forms))
+	for i, f := range t.forms {
+		out[i] = f.name
+	}
+	return out
+}
+
+func (t *typ) formIndex(name string) int {
+	for i, f := range t.forms {
+		if f.name == name {
+			return i
+		}
+	}
+	return -1
 }
 
 func short(d time.Duration) (context.Context, context.CancelFunc) {
@@ -298,170 +348,204 @@ func prefill(n int) []*item {
 	return out
 }
 
-func types() []typ {
-	return []typ{
-		{name: "CopyOnWriteArrayList", methods: listMethods, scale: 1, mk: func(_, _ string) *inst {
-			l := list.NewCopyOnWriteArrayListOf[*item](prefill(6))
-			return &inst{ops: listOps(l), trim: listTrim(l)}
-		}},
-		{name: "ConcurrentList", methods: listMethods, scale: 1, mk: func(m1, m2 string) *inst {
-			// alternate the wrapped implementation
-			var inner list.List[*item] = list.NewArrayListOf[*item](prefill(6))
-			if (len(m1)+len(m2))%2 == 1 {
-				inner = list.NewLinkedListOf[*item](prefill(6))
+func queueOps(enq func(ctx context.Context, t *item) error, deq func(ctx context.Context) (*item, error),
+	length func() int, asSlice func() []*item) map[string]op {
+	return map[string]op{
+		"Enqueue": func(g, i int) {
+			ctx, c := short(time.Millisecond)
+			_ = enq(ctx, mk(i))
+			c()
+		},
+		"Dequeue": func(g, i int) {
+			ctx, c := short(time.Millisecond)
+			if v, err := deq(ctx); err == nil {
+				use(v) // no write: AsSlice may have handed the same element to a reader
 			}
-			l := &list.ConcurrentList[*item]{List: inner}
-			return &inst{ops: listOps(l), trim: listTrim(l)}
-		}},
-		{name: "ConcurrentLinkedQueue", methods: []string{"Enqueue", "Dequeue"}, scale: 1, mk: func(_, _ string) *inst {
-			q := queue.NewConcurrentLinkedQueue[*item]()
-			for i := 0; i < 8; i++ {
-				_ = q.Enqueue(mk(i))
+			c()
+		},
+		"Len": func(g, i int) { _ = length() },
+		"AsSlice": func(g, i int) {
+			for _, t := range asSlice() {
+				use(t)
 			}
-			return &inst{ops: map[string]op{
-				"Enqueue": func(g, i int) { _ = q.Enqueue(mk(i)) },
-				"Dequeue": func(g, i int) {
-					if v, err := q.Dequeue(); err == nil {
-						use(v)
-						v.v++ // the consumer owns the value now
-					}
-				},
-			}}
-		}},
-		{name: "ConcurrentArrayBlockingQueue", methods: []string{"Enqueue", "Dequeue", "Len", "AsSlice"}, scale: 4, mk: func(_, _ string) *inst {
-			q := queue.NewConcurrentArrayBlockingQueue[*item](4)
-			_ = q.Enqueue(context.Background(), mk(0))
-			_ = q.Enqueue(context.Background(), mk(1))
-			return &inst{ops: map[string]op{
-				"Enqueue": func(g, i int) {
-					ctx, c := short(time.Millisecond)
-					_ = q.Enqueue(ctx, mk(i))
-					c()
-				},
-				"Dequeue": func(g, i int) {
-					ctx, c := short(time.Millisecond)
-					if v, err := q.Dequeue(ctx); err == nil {
-						use(v) // no write: AsSlice may have handed the same element to a reader
-					}
-					c()
-				},
-				"Len": func(g, i int) { _ = q.Len() },
-				"AsSlice": func(g, i int) {
-					for _, t := range q.AsSlice() {
-						use(t)
-					}
-				},
-			}}
-		}},
-		{name: "ConcurrentLinkedBlockingQueue", methods: []string{"Enqueue", "Dequeue", "Len", "AsSlice"}, scale: 4, mk: func(_, _ string) *inst {
-			q := queue.NewConcurrentLinkedBlockingQueue[*item](4)
-			_ = q.Enqueue(context.Background(), mk(0))
-			_ = q.Enqueue(context.Background(), mk(1))
-			return &inst{ops: map[string]op{
-				"Enqueue": func(g, i int) {
-					ctx, c := short(time.Millisecond)
-					_ = q.Enqueue(ctx, mk(i))
-					c()
-				},
-				"Dequeue": func(g, i int) {
-					ctx, c := short(time.Millisecond)
-					if v, err := q.Dequeue(ctx); err == nil {
-						use(v) // no write: AsSlice may have handed the same element to a reader
-					}
-					c()
-				},
-				"Len": func(g, i int) { _ = q.Len() },
-				"AsSlice": func(g, i int) {
-					for _, t := range q.AsSlice() {
-						use(t)
-					}
-				},
-			}}
-		}},
-		{name: "DelayQueue", methods: []string{"Enqueue", "Dequeue"}, scale: 4, mk: func(_, _ string) *inst {
-			q := queue.NewDelayQueue[delayItem](8)
-			_ = q.Enqueue(context.Background(), delayItem{at: time.Now(), it: mk(0)})
-			_ = q.Enqueue(context.Background(), delayItem{at: time.Now().Add(time.Millisecond), it: mk(1)})
-			return &inst{ops: map[string]op{
-				"Enqueue": func(g, i int) {
-					ctx, c := short(time.Millisecond)
-					_ = q.Enqueue(ctx, delayItem{at: time.Now().Add(time.Duration(i%3) * 300 * time.Microsecond), it: mk(i)})
-					c()
-				},
-				"Dequeue": func(g, i int) {
-					ctx, c := short(2 * time.Millisecond)
-					if v, err := q.Dequeue(ctx); err == nil {
-						use(v.it)
-						v.it.v++
-					}
-					c()
-				},
-			}}
-		}},
-		{name: "ConcurrentPriorityQueue", methods: []string{"Len", "Cap", "Peek", "Enqueue", "Dequeue"}, scale: 1, mk: func(_, _ string) *inst {
-			q := queue.NewConcurrentPriorityQueue[*item](64, func(a, b *item) int {
-				switch {
-				case a.v < b.v:
-					return -1
-				case a.v > b.v:
-					return 1
+		},
+	}
+}
+
+// primeQueue: two elements, with a deadline (a queue of capacity 1 is full after the first)
+func primeQueue(enq func(ctx context.Context, t *item) error) func() {
+	return func() {
+		for i := 0; i < 2; i++ {
+			ctx, c := short(time.Millisecond)
+			_ = enq(ctx, mk(i))
+			c()
+		}
+	}
+}
+
+func condInst(c *syncx.Cond, l sync.Locker) *inst {
+	shared := 0 // protected by l: the classic use of a condition variable
+	return &inst{ops: map[string]op{
+		"Wait": func(g, i int) {
+			ctx, cancel := short(time.Millisecond)
+			l.Lock()
+			shared++
+			_ = c.Wait(ctx)
+			shared++
+			l.Unlock()
+			cancel()
+		},
+		"Signal":    func(g, i int) { c.Signal() },
+		"Broadcast": func(g, i int) { c.Broadcast() },
+	}}
+}
+
+func valueInst(v *atomicx.Value[*item]) *inst {
+	return &inst{ops: map[string]op{
+		"Load":  func(g, i int) { use(v.Load()) },
+		"Store": func(g, i int) { v.Store(mk(i)) },
+		"Swap":  func(g, i int) { use(v.Swap(mk(i))) },
+		"CompareAndSwap": func(g, i int) {
+			old := v.Load()
+			_ = v.CompareAndSwap(old, mk(i))
+		},
+	}}
+}
+
+func cmpItem(a, b *item) int {
+	switch {
+	case a.v < b.v:
+		return -1
+	case a.v > b.v:
+		return 1
+	}
+	return 0
+}
+
+func taskPoolInst(m1, m2 string, opts ...option.Option[pool.OnDemandBlockTaskPool]) *inst {
+	p, err := pool.NewOnDemandBlockTaskPool(2, 8, opts...)
+	if err != nil {
+		panic(err)
+	}
+	return &inst{ops: map[string]op{
+		"Submit": func(g, i int) {
+			ctx, c := short(time.Millisecond)
+			it := mk(i)
+			_ = p.Submit(ctx, pool.TaskFunc(func(ctx context.Context) error { use(it); it.v++; return nil }))
+			c()
+		},
+		"Start": func(g, i int) {
+			// the first Start comes late enough for a States sampler that another worker has already
+			// started on the still-created pool to have ticked (States is legal before Start): an access
+			// of Start that is unordered with the sampler's reads shows only in this order
+			if i == 0 {
+				time.Sleep(1500 * time.Microsecond)
+			}
+			_ = p.Start()
+		},
+		"Shutdown":    func(g, i int) { _, _ = p.Shutdown() },
+		"ShutdownNow": func(g, i int) { _, _ = p.ShutdownNow() },
+		"States": func(g, i int) {
+			ctx, c := short(2 * time.Millisecond)
+			ch, err := p.States(ctx, 300*time.Microsecond)
+			if err == nil {
+				for range ch {
 				}
-				return 0
-			})
-			for i := 0; i < 8; i++ {
-				_ = q.Enqueue(mk(i * 3))
 			}
+			c()
+		},
+	}, prime: func() {
+		if m1 != "Start" && m2 != "Start" {
+			_ = p.Start()
+		}
+	}, close: func() {
+		_ = p.Start()
+		done, err := p.Shutdown()
+		if err == nil {
+			select {
+			case <-done:
+			case <-time.After(2 * time.Second):
+			}
+		}
+		_, _ = p.ShutdownNow()
+	}}
+}
+
+func copierInst(withOptions bool) *inst {
+	var c *copier.ReflectCopier[srcT, dstT]
+	var err error
+	if withOptions {
+		c, err = copier.NewReflectCopier[srcT, dstT](copier.IgnoreFields("B"))
+	} else {
+		c, err = copier.NewReflectCopier[srcT, dstT]()
+	}
+	if err != nil {
+		panic(err)
+	}
+	n := 5
+	src := &srcT{A: 1, B: "b", C: innerT{X: 2, Y: 3}, D: &n}
+	return &inst{ops: map[string]op{
+		"Copy": func(g, i int) {
+			if i%2 == 0 {
+				_, _ = c.Copy(src)
+			} else {
+				_, _ = c.Copy(src, copier.IgnoreFields("A"))
+			}
+		},
+		"CopyTo": func(g, i int) {
+			var d dstT
+			if i%2 == 0 {
+				_ = c.CopyTo(src, &d, copier.IgnoreFields("D"))
+			} else {
+				_ = c.CopyTo(src, &d)
+			}
+		},
+	}}
+}
+
+func types() []typ {
+	cowInst := func(l *list.CopyOnWriteArrayList[*item], prime bool) *inst {
+		in := &inst{ops: listOps(l), trim: listTrim(l)}
+		if prime {
+			in.prime = func() { _ = l.Append(prefill(6)...) }
+		}
+		return in
+	}
+	clistInst := func(inner list.List[*item]) *inst {
+		l := &list.ConcurrentList[*item]{List: inner}
+		return &inst{ops: listOps(l), trim: listTrim(l)}
+	}
+	abq := func(capacity int) func(_, _ string) *inst {
+		return func(_, _ string) *inst {
+			q := queue.NewConcurrentArrayBlockingQueue[*item](capacity)
+			return &inst{ops: queueOps(q.Enqueue, q.Dequeue, q.Len, q.AsSlice), prime: primeQueue(q.Enqueue)}
+		}
+	}
+	lbq := func(capacity int) func(_, _ string) *inst {
+		return func(_, _ string) *inst {
+			q := queue.NewConcurrentLinkedBlockingQueue[*item](capacity)
+			return &inst{ops: queueOps(q.Enqueue, q.Dequeue, q.Len, q.AsSlice), prime: primeQueue(q.Enqueue)}
+		}
+	}
+	cpq := func(capacity int) func(_, _ string) *inst {
+		return func(_, _ string) *inst {
+			q := queue.NewConcurrentPriorityQueue[*item](capacity, cmpItem)
 			return &inst{ops: map[string]op{
 				"Len":     func(g, i int) { _ = q.Len() },
 				"Cap":     func(g, i int) { _ = q.Cap() },
 				"Peek":    func(g, i int) { v, _ := q.Peek(); use(v) },
 				"Enqueue": func(g, i int) { _ = q.Enqueue(mk(i % 17)) },
 				"Dequeue": func(g, i int) { v, _ := q.Dequeue(); use(v) },
+			}, prime: func() {
+				for i := 0; i < 8; i++ {
+					_ = q.Enqueue(mk(i * 3))
+				}
 			}}
-		}},
-		{name: "Cond", methods: []string{"Wait", "Signal", "Broadcast"}, scale: 4, mk: func(_, _ string) *inst {
-			mu := &sync.Mutex{}
-			c := syncx.NewCond(mu)
-			shared := 0 // protected by mu: the classic use of a condition variable
-			return &inst{ops: map[string]op{
-				"Wait": func(g, i int) {
-					ctx, cancel := short(time.Millisecond)
-					mu.Lock()
-					shared++
-					_ = c.Wait(ctx)
-					shared++
-					mu.Unlock()
-					cancel()
-				},
-				"Signal":    func(g, i int) { c.Signal() },
-				"Broadcast": func(g, i int) { c.Broadcast() },
-			}}
-		}},
-		{name: "Map", methods: []string{"Load", "Store", "LoadOrStore", "LoadOrStoreFunc", "LoadAndDelete", "Delete", "Range"}, scale: 1, mk: func(_, _ string) *inst {
-			m := &syncx.Map[int, *item]{}
-			for i := 0; i < 4; i++ {
-				m.Store(i, mk(i))
-			}
-			return &inst{ops: map[string]op{
-				"Load":        func(g, i int) { v, _ := m.Load(i % 6); use(v) },
-				"Store":       func(g, i int) { m.Store(i%6, mkz(i)) },
-				"LoadOrStore": func(g, i int) { v, _ := m.LoadOrStore(i%6, mkz(i)); use(v) },
-				"LoadOrStoreFunc": func(g, i int) {
-					v, _, _ := m.LoadOrStoreFunc(i%6, func() (*item, error) {
-						if i%11 == 7 {
-							return nil, errors.New("no value")
-						}
-						return mkz(i), nil
-					})
-					use(v)
-				},
-				"LoadAndDelete": func(g, i int) { v, _ := m.LoadAndDelete(i % 6); use(v) },
-				"Delete":        func(g, i int) { m.Delete(i % 6) },
-				"Range":         func(g, i int) { m.Range(func(_ int, v *item) bool { use(v); return true }) },
-			}}
-		}},
-		{name: "LimitPool", methods: []string{"Get", "Put"}, scale: 1, mk: func(_, _ string) *inst {
-			p := syncx.NewLimitPool[*item](3, func() *item { return mk(7) })
+		}
+	}
+	limitPool := func(maxTokens int) func(_, _ string) *inst {
+		return func(_, _ string) *inst {
+			p := syncx.NewLimitPool[*item](maxTokens, func() *item { return mk(7) })
 			return &inst{ops: map[string]op{
 				"Get": func(g, i int) {
 					if v, ok := p.Get(); ok {
@@ -477,23 +561,11 @@ func types() []typ {
 					}
 				},
 			}}
-		}},
-		{name: "Pool", methods: []string{"Get", "Put"}, scale: 1, mk: func(_, _ string) *inst {
-			p := syncx.NewPool[*item](func() *item { return mk(7) })
-			return &inst{ops: map[string]op{
-				"Get": func(g, i int) {
-					v := p.Get()
-					use(v)
-					if v != nil {
-						v.v = i
-					}
-					p.Put(v)
-				},
-				"Put": func(g, i int) { p.Put(mkz(i)) },
-			}}
-		}},
-		{name: "SegmentKeysLock", methods: []string{"Lock", "RLock", "TryLock", "TryRLock"}, scale: 1, mk: func(_, _ string) *inst {
-			s := syncx.NewSegmentKeysLock(4)
+		}
+	}
+	segLock := func(size uint32) func(_, _ string) *inst {
+		return func(_, _ string) *inst {
+			s := syncx.NewSegmentKeysLock(size)
 			keys := []string{"a", "b", "c", ""} // the empty key is a key like any other
 			guarded := make([]item, len(keys))  // guarded[k] is protected by the lock of keys[k]
 			return &inst{ops: map[string]op{
@@ -514,105 +586,181 @@ func types() []typ {
 					}
 				},
 			}}
-		}},
-		{name: "Value", methods: []string{"Load", "Store", "Swap", "CompareAndSwap"}, scale: 1, mk: func(_, _ string) *inst {
-			v := atomicx.NewValueOf[*item](mk(0))
-			return &inst{ops: map[string]op{
-				"Load":  func(g, i int) { use(v.Load()) },
-				"Store": func(g, i int) { v.Store(mk(i)) },
-				"Swap":  func(g, i int) { use(v.Swap(mk(i))) },
-				"CompareAndSwap": func(g, i int) {
-					old := v.Load()
-					_ = v.CompareAndSwap(old, mk(i))
-				},
-			}}
-		}},
-		{name: "OnDemandBlockTaskPool", methods: []string{"Submit", "Start", "Shutdown", "ShutdownNow", "States"}, scale: 10, mk: func(m1, m2 string) *inst {
-			p, err := pool.NewOnDemandBlockTaskPool(2, 8, pool.WithCoreGo(3), pool.WithMaxGo(4),
-				pool.WithMaxIdleTime(200*time.Microsecond), pool.WithQueueBacklogRate(0.1))
+		}
+	}
+	expo := func(maxRetries int32) func(_, _ string) *inst {
+		return func(_, _ string) *inst {
+			s, err := retry.NewExponentialBackoffRetryStrategy(time.Millisecond, 8*time.Millisecond, maxRetries)
 			if err != nil {
 				panic(err)
 			}
-			if m1 != "Start" && m2 != "Start" {
-				_ = p.Start()
+			return &inst{ops: map[string]op{"Next": func(g, i int) { _, _ = s.Next() }}}
+		}
+	}
+	fixed := func(maxRetries int32) func(_, _ string) *inst {
+		return func(_, _ string) *inst {
+			s, err := retry.NewFixedIntervalRetryStrategy(time.Millisecond, maxRetries)
+			if err != nil {
+				panic(err)
 			}
-			return &inst{ops: map[string]op{
-				"Submit": func(g, i int) {
-					ctx, c := short(time.Millisecond)
-					it := mk(i)
-					_ = p.Submit(ctx, pool.TaskFunc(func(ctx context.Context) error { use(it); it.v++; return nil }))
-					c()
-				},
-				"Start": func(g, i int) {
-					// the first Start comes late enough for a States sampler that another worker has already
-					// started on the still-created pool to have ticked (States is legal before Start): an access
-					// of Start that is unordered with the sampler's reads shows only in this order
-					if i == 0 {
-						time.Sleep(1500 * time.Microsecond)
-					}
-					_ = p.Start()
-				},
-				"Shutdown":    func(g, i int) { _, _ = p.Shutdown() },
-				"ShutdownNow": func(g, i int) { _, _ = p.ShutdownNow() },
-				"States": func(g, i int) {
-					ctx, c := short(2 * time.Millisecond)
-					ch, err := p.States(ctx, 300*time.Microsecond)
-					if err == nil {
-						for range ch {
+			return &inst{ops: map[string]op{"Next": func(g, i int) { _, _ = s.Next() }}}
+		}
+	}
+	return []typ{
+		{name: "CopyOnWriteArrayList", methods: listMethods, scale: 1, forms: []form{
+			{"NewCopyOnWriteArrayListOf", func(_, _ string) *inst {
+				return cowInst(list.NewCopyOnWriteArrayListOf[*item](prefill(6)), false)
+			}},
+			{"NewCopyOnWriteArrayList", func(_, _ string) *inst {
+				return cowInst(list.NewCopyOnWriteArrayList[*item](), true)
+			}},
+		}},
+		// ConcurrentList has no constructor: the literal around each List implementation
+		{name: "ConcurrentList", methods: listMethods, scale: 1, forms: []form{
+			{"literal:ArrayList", func(_, _ string) *inst { return clistInst(list.NewArrayListOf[*item](prefill(6))) }},
+			{"literal:LinkedList", func(_, _ string) *inst { return clistInst(list.NewLinkedListOf[*item](prefill(6))) }},
+		}},
+		{name: "ConcurrentLinkedQueue", methods: []string{"Enqueue", "Dequeue"}, scale: 1, forms: []form{
+			{"NewConcurrentLinkedQueue", func(_, _ string) *inst {
+				q := queue.NewConcurrentLinkedQueue[*item]()
+				return &inst{ops: map[string]op{
+					"Enqueue": func(g, i int) { _ = q.Enqueue(mk(i)) },
+					"Dequeue": func(g, i int) {
+						if v, err := q.Dequeue(); err == nil {
+							use(v)
+							v.v++ // the consumer owns the value now
 						}
+					},
+				}, prime: func() {
+					for i := 0; i < 8; i++ {
+						_ = q.Enqueue(mk(i))
 					}
-					c()
-				},
-			}, close: func() {
-				_ = p.Start()
-				done, err := p.Shutdown()
-				if err == nil {
-					select {
-					case <-done:
-					case <-time.After(2 * time.Second):
-					}
-				}
-				_, _ = p.ShutdownNow()
-			}}
+				}}
+			}},
 		}},
-		{name: "ExponentialBackoffRetryStrategy", methods: []string{"Next"}, scale: 1, mk: func(_, _ string) *inst {
-			s, err := retry.NewExponentialBackoffRetryStrategy(time.Millisecond, 8*time.Millisecond, 0)
-			if err != nil {
-				panic(err)
-			}
-			return &inst{ops: map[string]op{"Next": func(g, i int) { _, _ = s.Next() }}}
+		{name: "ConcurrentArrayBlockingQueue", methods: []string{"Enqueue", "Dequeue", "Len", "AsSlice"}, scale: 4, forms: []form{
+			{"capacity4", abq(4)}, {"capacity1", abq(1)},
 		}},
-		{name: "FixedIntervalRetryStrategy", methods: []string{"Next"}, scale: 1, mk: func(_, _ string) *inst {
-			s, err := retry.NewFixedIntervalRetryStrategy(time.Millisecond, 100)
-			if err != nil {
-				panic(err)
-			}
-			return &inst{ops: map[string]op{"Next": func(g, i int) { _, _ = s.Next() }}}
+		{name: "ConcurrentLinkedBlockingQueue", methods: []string{"Enqueue", "Dequeue", "Len", "AsSlice"}, scale: 4, forms: []form{
+			{"capacity4", lbq(4)}, {"unbounded", lbq(0)}, {"capacity1", lbq(1)},
 		}},
-		{name: "ReflectCopier", methods: []string{"Copy", "CopyTo"}, scale: 1, mk: func(_, _ string) *inst {
-			c, err := copier.NewReflectCopier[srcT, dstT](copier.IgnoreFields("B"))
-			if err != nil {
-				panic(err)
-			}
-			n := 5
-			src := &srcT{A: 1, B: "b", C: innerT{X: 2, Y: 3}, D: &n}
-			return &inst{ops: map[string]op{
-				"Copy": func(g, i int) {
-					if i%2 == 0 {
-						_, _ = c.Copy(src)
-					} else {
-						_, _ = c.Copy(src, copier.IgnoreFields("A"))
+		{name: "DelayQueue", methods: []string{"Enqueue", "Dequeue"}, scale: 4, forms: []form{
+			{"capacity8", func(_, _ string) *inst {
+				q := queue.NewDelayQueue[delayItem](8)
+				return &inst{ops: map[string]op{
+					"Enqueue": func(g, i int) {
+						ctx, c := short(time.Millisecond)
+						_ = q.Enqueue(ctx, delayItem{at: time.Now().Add(time.Duration(i%3) * 300 * time.Microsecond), it: mk(i)})
+						c()
+					},
+					"Dequeue": func(g, i int) {
+						ctx, c := short(2 * time.Millisecond)
+						if v, err := q.Dequeue(ctx); err == nil {
+							use(v.it)
+							v.it.v++
+						}
+						c()
+					},
+				}, prime: func() {
+					_ = q.Enqueue(context.Background(), delayItem{at: time.Now(), it: mk(0)})
+					_ = q.Enqueue(context.Background(), delayItem{at: time.Now().Add(time.Millisecond), it: mk(1)})
+				}}
+			}},
+		}},
+		{name: "ConcurrentPriorityQueue", methods: []string{"Len", "Cap", "Peek", "Enqueue", "Dequeue"}, scale: 1, forms: []form{
+			{"capacity64", cpq(64)}, {"unbounded", cpq(0)},
+		}},
+		// a Cond is usable as a literal / zero value with L set, like sync.Cond (the library's own tests do it),
+		// and L may be any Locker
+		{name: "Cond", methods: []string{"Wait", "Signal", "Broadcast"}, scale: 4, forms: []form{
+			{"NewCond", func(_, _ string) *inst {
+				mu := &sync.Mutex{}
+				return condInst(syncx.NewCond(mu), mu)
+			}},
+			{"literal", func(_, _ string) *inst {
+				mu := &sync.Mutex{}
+				return condInst(&syncx.Cond{L: mu}, mu)
+			}},
+			{"NewCond:RWMutex", func(_, _ string) *inst {
+				mu := &sync.RWMutex{}
+				return condInst(syncx.NewCond(mu), mu)
+			}},
+			{"zero-then-L", func(_, _ string) *inst {
+				mu := &sync.Mutex{}
+				c := new(syncx.Cond)
+				c.L = mu
+				return condInst(c, mu)
+			}},
+		}},
+		// Map has no constructor: the zero value
+		{name: "Map", methods: []string{"Load", "Store", "LoadOrStore", "LoadOrStoreFunc", "LoadAndDelete", "Delete", "Range"}, scale: 1, forms: []form{
+			{"zero", func(_, _ string) *inst {
+				m := &syncx.Map[int, *item]{}
+				return &inst{ops: map[string]op{
+					"Load":        func(g, i int) { v, _ := m.Load(i % 6); use(v) },
+					"Store":       func(g, i int) { m.Store(i%6, mkz(i)) },
+					"LoadOrStore": func(g, i int) { v, _ := m.LoadOrStore(i%6, mkz(i)); use(v) },
+					"LoadOrStoreFunc": func(g, i int) {
+						v, _, _ := m.LoadOrStoreFunc(i%6, func() (*item, error) {
+							if i%11 == 7 {
+								return nil, errors.New("no value")
+							}
+							return mkz(i), nil
+						})
+						use(v)
+					},
+					"LoadAndDelete": func(g, i int) { v, _ := m.LoadAndDelete(i % 6); use(v) },
+					"Delete":        func(g, i int) { m.Delete(i % 6) },
+					"Range":         func(g, i int) { m.Range(func(_ int, v *item) bool { use(v); return true }) },
+				}, prime: func() {
+					for i := 0; i < 4; i++ {
+						m.Store(i, mk(i))
 					}
-				},
-				"CopyTo": func(g, i int) {
-					var d dstT
-					if i%2 == 0 {
-						_ = c.CopyTo(src, &d, copier.IgnoreFields("D"))
-					} else {
-						_ = c.CopyTo(src, &d)
-					}
-				},
-			}}
+				}}
+			}},
+		}},
+		{name: "LimitPool", methods: []string{"Get", "Put"}, scale: 1, forms: []form{
+			{"maxTokens3", limitPool(3)}, {"maxTokens1", limitPool(1)},
+		}},
+		{name: "Pool", methods: []string{"Get", "Put"}, scale: 1, forms: []form{
+			{"NewPool", func(_, _ string) *inst {
+				p := syncx.NewPool[*item](func() *item { return mk(7) })
+				return &inst{ops: map[string]op{
+					"Get": func(g, i int) {
+						v := p.Get()
+						use(v)
+						if v != nil {
+							v.v = i
+						}
+						p.Put(v)
+					},
+					"Put": func(g, i int) { p.Put(mkz(i)) },
+				}}
+			}},
+		}},
+		{name: "SegmentKeysLock", methods: []string{"Lock", "RLock", "TryLock", "TryRLock"}, scale: 1, forms: []form{
+			{"size4", segLock(4)}, {"size1", segLock(1)},
+		}},
+		{name: "Value", methods: []string{"Load", "Store", "Swap", "CompareAndSwap"}, scale: 1, forms: []form{
+			{"NewValueOf", func(_, _ string) *inst { return valueInst(atomicx.NewValueOf[*item](mk(0))) }},
+			{"NewValue", func(_, _ string) *inst { return valueInst(atomicx.NewValue[*item]()) }},
+		}},
+		{name: "OnDemandBlockTaskPool", methods: []string{"Submit", "Start", "Shutdown", "ShutdownNow", "States"}, scale: 10, forms: []form{
+			{"options", func(m1, m2 string) *inst {
+				return taskPoolInst(m1, m2, pool.WithCoreGo(3), pool.WithMaxGo(4),
+					pool.WithMaxIdleTime(200*time.Microsecond), pool.WithQueueBacklogRate(0.1))
+			}},
+			{"defaults", func(m1, m2 string) *inst { return taskPoolInst(m1, m2) }},
+		}},
+		{name: "ExponentialBackoffRetryStrategy", methods: []string{"Next"}, scale: 1, forms: []form{
+			{"unlimited", expo(0)}, {"maxRetries6", expo(6)},
+		}},
+		{name: "FixedIntervalRetryStrategy", methods: []string{"Next"}, scale: 1, forms: []form{
+			{"maxRetries100", fixed(100)}, {"unlimited", fixed(0)},
+		}},
+		{name: "ReflectCopier", methods: []string{"Copy", "CopyTo"}, scale: 1, forms: []form{
+			{"options", func(_, _ string) *inst { return copierInst(true) }},
+			{"defaults", func(_, _ string) *inst { return copierInst(false) }},
 		}},
 	}
 }
@@ -694,15 +842,17 @@ func one(c string) int {
 			fmt.Fprintln(os.Stderr, "bad case (not the method list of this harness):", c)
 			return 4
 		}
-		in := t.mk("", "")
-		for _, m := range t.methods {
-			if in.ops[m] == nil {
-				fmt.Fprintln(os.Stderr, "unknown method in:", c)
-				return 4
+		for k := range t.forms { // every construction form offers every method
+			in := t.build(k, "", "", true)
+			for _, m := range t.methods {
+				if in.ops[m] == nil {
+					fmt.Fprintln(os.Stderr, "unknown method in:", c)
+					return 4
+				}
 			}
-		}
-		if in.close != nil {
-			in.close()
+			if in.close != nil {
+				in.close()
+			}
 		}
 	case "pair":
 		if len(ws) != 5 {
@@ -711,7 +861,7 @@ func one(c string) int {
 		}
 		m1, m2 := ws[2], ws[3]
 		for r := 0; r < rounds; r++ {
-			in := t.mk(m1, m2)
+			in := t.build(r+formOffset(m1, m2), m1, m2, true)
 			if in.ops[m1] == nil || in.ops[m2] == nil {
 				fmt.Fprintln(os.Stderr, "unknown method in:", c)
 				return 4
@@ -737,7 +887,7 @@ func one(c string) int {
 	case "stress":
 		rng := vlib.NewRng(seed)
 		for r := 0; r < rounds; r++ {
-			in := t.mk("", "")
+			in := t.build(r, "", "", true)
 			var fns []op
 			for g := 0; g < 4; g++ {
 				offs := rng.Intn(len(t.methods))
@@ -754,7 +904,7 @@ func one(c string) int {
 		// if the type has none)
 		rng := vlib.NewRng(seed ^ 0x5e9)
 		for r := 0; r < rounds; r++ {
-			in := t.mk("", "")
+			in := t.build(r, "", "", true)
 			var mut, ro []op
 			for _, m := range t.methods {
 				if isMutator(t, m) {
@@ -791,7 +941,9 @@ func one(c string) int {
 		}
 		rng := vlib.NewRng(seed ^ 0xd17)
 		for r := 0; r < 4; r++ {
-			in := t.mk(ws[2], ws[3])
+			// rounds 0,1 and 2,3 differ in roles and worker mix; the form changes every round (offset r/2 so that
+			// with two forms each form sees both role assignments)
+			in := t.build(r+r/2+formOffset(ws[2], ws[3]), ws[2], ws[3], true)
 			ma, mb := ws[2], ws[3]
 			if r%2 == 1 {
 				ma, mb = mb, ma
@@ -812,6 +964,50 @@ func one(c string) int {
 				fns[3] = writerSeq(in, t, rng.Fork(), prep, vb)
 			}
 			runWorkers(fns, iters)
+			if in.close != nil {
+				in.close()
+			}
+		}
+	case "fresh":
+		// first uses from several goroutines: every round builds a NEW instance in the named construction form,
+		// does not prime it, and lets 2-4 workers make their first 1-3 calls of one method pair on it (the pairs
+		// of the matrix in turn, boundary variants included); nothing but the instance orders these calls.
+		// Lazy initialisation (sync.Once, nil checks, first-call allocation) is reachable only this way.
+		if len(ws) != 4 {
+			fmt.Fprintln(os.Stderr, "bad case:", c)
+			return 4
+		}
+		k := t.formIndex(ws[2])
+		if k < 0 {
+			fmt.Fprintln(os.Stderr, "unknown construction form in:", c)
+			return 4
+		}
+		var pairs [][2]string
+		for i, m1 := range t.methods {
+			for _, m2 := range t.methods[i:] {
+				pairs = append(pairs, [2]string{m1, m2})
+			}
+		}
+		deadline := time.Now().Add(20 * time.Second)
+		for r := 0; r < iters && time.Now().Before(deadline); r++ {
+			pr, lap := pairs[r%len(pairs)], r/len(pairs)
+			in := t.build(k, pr[0], pr[1], false)
+			v1, v2 := variants(in, pr[0]), variants(in, pr[1])
+			if len(v1) == 0 || len(v2) == 0 {
+				fmt.Fprintln(os.Stderr, "unknown method in:", c)
+				return 4
+			}
+			workers := 2 + int((seed+uint64(lap))%3) // 2..4
+			fns := make([]op, workers)
+			for g := range fns {
+				// the plain call first; later laps start with the boundary variants
+				if g%2 == 0 {
+					fns[g] = cycle(v1, lap%len(v1))
+				} else {
+					fns[g] = cycle(v2, lap%len(v2))
+				}
+			}
+			runWorkers(fns, 1+lap%3)
 			if in.close != nil {
 				in.close()
 			}
@@ -853,6 +1049,11 @@ func gen(tier, out string) {
 		o.Line("new stress %s %d", t.name, iters*2)
 		if os.Getenv("VERIF_RACES_NOSEQ") == "" { // (knob for testing the directed search on its own)
 			o.Line("new seq %s %d", t.name, iters*4)
+		}
+		if os.Getenv("VERIF_RACES_NOFRESH") == "" { // (knob, likewise)
+			for _, f := range t.forms {
+				o.Line("new fresh %s %s %d", t.name, f.name, iters)
+			}
 		}
 	}
 }
@@ -1046,6 +1247,8 @@ func run(opsPath, outPath, statsPath string) {
 	o := vlib.Create(outPath)
 	kinds := map[string]int{}
 	perType := map[string]int{}
+	caseKinds := map[string]int{}
+	perForm := map[string]int{} // `fresh` cases per type/construction form
 	slowest := 0.0
 	nontrivial := 0
 	for i, c := range cases {
@@ -1063,6 +1266,10 @@ func run(opsPath, outPath, statsPath string) {
 		if len(ws) > 2 {
 			perType[ws[2]]++
 		}
+		caseKinds[ws[1]]++
+		if len(ws) > 3 && ws[1] == "fresh" {
+			perForm[ws[2]+"/"+ws[3]]++
+		}
 		if results[i].secs > slowest {
 			slowest = results[i].secs
 		}
@@ -1077,7 +1284,7 @@ func run(opsPath, outPath, statsPath string) {
 		sort.Strings(tn)
 		st := map[string]any{
 			"cases": len(cases), "lines": len(cases), "distinct_state_op_pairs": nontrivial,
-			"result_kinds": kinds, "cases_per_type": perType, "race_detector": withRace,
+			"result_kinds": kinds, "cases_per_type": perType, "case_kinds": caseKinds, "fresh_cases_per_form": perForm, "race_detector": withRace,
 			"parallel": par, "slowest_case_s": slowest,
 		}
 		b, _ := json.MarshalIndent(st, "", " ")
